@@ -107,3 +107,23 @@ impl VBytes<8> for u64 {
     #[verifier::external_body]
     fn v_to_be_bytes(self) -> (r: [u8; 8]) { self.to_be_bytes() }
 }
+pub trait VFromBytes<const N: usize>: Sized {
+    spec fn v_of_nat(v: nat) -> Self;
+    fn v_from_be_bytes(a: [u8; N]) -> (r: Self)
+        ensures r == Self::v_of_nat(be_val(a@));
+}
+impl VFromBytes<2> for u16 {
+    open spec fn v_of_nat(v: nat) -> u16 { v as u16 }
+    #[verifier::external_body]
+    fn v_from_be_bytes(a: [u8; 2]) -> (r: u16) { u16::from_be_bytes(a) }
+}
+impl VFromBytes<4> for u32 {
+    open spec fn v_of_nat(v: nat) -> u32 { v as u32 }
+    #[verifier::external_body]
+    fn v_from_be_bytes(a: [u8; 4]) -> (r: u32) { u32::from_be_bytes(a) }
+}
+impl VFromBytes<8> for u64 {
+    open spec fn v_of_nat(v: nat) -> u64 { v as u64 }
+    #[verifier::external_body]
+    fn v_from_be_bytes(a: [u8; 8]) -> (r: u64) { u64::from_be_bytes(a) }
+}
